@@ -45,7 +45,8 @@ func loadProg(repo, tags string, controls map[string][]byte) (*Prog, error) {
 		Mode:  packages.LoadAllSyntax,
 		Dir:   repo,
 		Tests: false,
-		Env:   append(os.Environ(), "GOWORK=off", "GOFLAGS=-mod=mod", "GOPROXY=off", "GOTOOLCHAIN=local", "CGO_ENABLED=0"),
+		Env: append(os.Environ(), "GOWORK=off", "GOFLAGS=-mod=mod", "GOPROXY=off", "GOTOOLCHAIN=local", "CGO_ENABLED=0",
+			"PATH=/opt/veriftools/go1.26.8/bin:"+os.Getenv("PATH")),
 	}
 	if tags != "" {
 		cfg.BuildFlags = []string{"-tags=" + tags}
@@ -112,6 +113,34 @@ func loadProg(repo, tags string, controls map[string][]byte) (*Prog, error) {
 	prog.Build()
 	p.SSA = prog
 	p.AllFns = ssautil.AllFunctions(prog)
+	// AllFunctions is a linker-style reachability: add every declared function and method of the drand module so
+	// that unreferenced methods (and the overlay controls) are analysed too.
+	for _, spkg := range prog.AllPackages() {
+		if spkg.Pkg == nil || !inModule(spkg.Pkg.Path()) {
+			continue
+		}
+		for _, mem := range spkg.Members {
+			switch m := mem.(type) {
+			case *ssa.Function:
+				addWithAnons(p.AllFns, m)
+			case *ssa.Type:
+				for _, t := range []types.Type{m.Type(), types.NewPointer(m.Type())} {
+					if _, isIface := m.Type().Underlying().(*types.Interface); isIface {
+						continue
+					}
+					if tp, ok := m.Type().(*types.Named); ok && tp.TypeParams().Len() > 0 {
+						continue
+					}
+					ms := prog.MethodSets.MethodSet(t)
+					for i := 0; i < ms.Len(); i++ {
+						if f := prog.MethodValue(ms.At(i)); f != nil && f.Synthetic == "" {
+							addWithAnons(p.AllFns, f)
+						}
+					}
+				}
+			}
+		}
+	}
 	for fn := range p.AllFns {
 		p.fnIndex[fnKey(fn)] = fn
 	}
@@ -188,7 +217,7 @@ func isSubjectPkg(path string) bool {
 		return false
 	}
 	rel := strings.TrimPrefix(strings.TrimPrefix(path, modPath), "/")
-	for _, ex := range []string{"protobuf", "demo", "test", "internal/test", controlsRel} {
+	for _, ex := range []string{"protobuf", "demo", "test", "internal/test"} {
 		if rel == ex || strings.HasPrefix(rel, ex+"/") {
 			return false
 		}
@@ -224,4 +253,14 @@ func (p *Prog) SubjectFns() []*ssa.Function {
 	}
 	sort.Slice(out, func(i, j int) bool { return fnKey(out[i]) < fnKey(out[j]) })
 	return out
+}
+
+func addWithAnons(set map[*ssa.Function]bool, f *ssa.Function) {
+	if set[f] {
+		return
+	}
+	set[f] = true
+	for _, a := range f.AnonFuncs {
+		addWithAnons(set, a)
+	}
 }
